@@ -79,13 +79,14 @@ Record InvA (s : st) : Prop := {
   a_late : forall t, Slate (pcs s t) = true -> bstopped s = true;
   a_held : held s <> [] -> polldead s = true /\ stopped s = true;
   a_s2 : forall t, Sis2 (pcs s t) = true -> polldead s = true;
-  a_kill : polldead s = true -> pollkill s = true
+  a_kill : polldead s = true -> pollkill s = true;
+  a_heldw : held s = [] \/ exists t, Sheld (pcs s t) = true
 }.
 
 Lemma invA_init : InvA init.
 Proof.
   constructor; cbn; auto; try discriminate; try (intros; discriminate);
-    try (intros H; congruence).
+    try (intros H; congruence); try (left; reflexivity).
 Qed.
 
 (** enqueue and respond touch few fields *)
@@ -169,6 +170,14 @@ Lemma resp_pcs a v s : pcs (respond a v s) = pcs s.
 Proof. destruct a; reflexivity. Qed.
 #[export] Hint Rewrite enq_lostE enq_lostD enq_held enq_input enq_closed enq_ex enq_hist enq_stopped enq_bstopped enq_pollkill enq_polldead enq_trigger enq_mu enq_ans enq_nreq enq_nexts enq_crec enq_pcs enq_enq resp_ring resp_dropped resp_lostE resp_lostD resp_enq resp_held resp_input resp_closed resp_ex resp_hist resp_stopped resp_bstopped resp_pollkill resp_polldead resp_trigger resp_mu resp_nreq resp_nexts resp_crec resp_pcs : c06.
 Ltac sst' := sst; autorewrite with c06 in *; sst.
+(** the same on the goal only *)
+Ltac sstg :=
+  cbn [ring dropped lostE lostD enq held input closed ex hist stopped bstopped pollkill polldead
+       trigger mu ans nreq nexts crec pcs
+       set_ring set_dropped set_lostE set_lostD set_enq set_held set_input set_closed set_ex set_hist
+       set_stopped set_bstopped set_pollkill set_polldead set_trigger set_mu set_ans set_nreq
+       set_nexts set_crec set_pcs log goto retn].
+Ltac sstg' := sstg; autorewrite with c06; sstg.
 
 Lemma nilb_false {A} (l : list A) : nilb l = false -> l <> [].
 Proof. destruct l; [discriminate | intros _ H; discriminate]. Qed.
@@ -229,9 +238,9 @@ Ltac sst_contra :=
 Lemma invA_step c s a s' : valid c -> InvA s -> step c s a = Some s' -> InvA s'.
 Proof.
   intros Hv HA H.
-  destruct HA as [Aopen Ainput Anext Aheld3 Astopped Asst Auniq Abstop Aclosed Aearly Alate Aheld As2 Akill].
+  destruct HA as [Aopen Ainput Anext Aheld3 Astopped Asst Auniq Abstop Aclosed Aearly Alate Aheld As2 Akill Aheldw].
   destruct a; open_step H; sst'.
-  all: constructor; sst'.
+  all: constructor; sstg'; try assumption.
   all: try (rewrite ?open_export_snoc; cbn [open_step is_open]; try assumption;
             try (rewrite Aopen; match goal with H : ex _ = _ |- _ => rewrite H end; reflexivity)).
   all: try solve [fin].
@@ -247,4 +256,10 @@ Proof.
   all: try solve [match goal with E : ex ?s = _ |- context [ex ?s] => rewrite E; auto end].
   all: try solve [match goal with E : input ?s = _ :: _, F : Forall data_ok (input ?s) |- _ => rewrite E in F; inversion F; subst; cbn in *; auto using nilb_false end].
   all: try solve [match goal with F : Forall data_ok (_ :: _) |- _ => inversion F; subst; cbn in *; auto using nilb_false end].
+  all: try solve [left; reflexivity].
+  all: try solve [destruct Aheldw as [Hn|[t0 Ht0]];
+    [left; assumption
+    | right; exists t0; upd_cases t0 t; [know_pc; cbn [Sheld] in *; try congruence; try reflexivity | assumption]]].
+  all: try solve [left; apply nilb_true; assumption].
+  all: try solve [right; exists t; rewrite upd_same; reflexivity].
 Qed.
